@@ -128,9 +128,8 @@ def run_history(args):
 
 def repro_check(base, vec_events):
     """two fresh builds (private llgo cache and go cache each) of the same sources: identical IR per package"""
-    sets = []
-    for k in range(2):
-        root = os.path.join(base, "repro%d" % k)
+    def one(k):
+        root = os.path.join(base, "repro%s_%d" % ("-".join(vec_events) or "init", k))
         if os.path.exists(root):
             shutil.rmtree(root)
         w = World(root)
@@ -148,9 +147,9 @@ def repro_check(base, vec_events):
                     # module identity = its content without the source_filename line (temporary file names differ between builds)
                     body = b"\n".join(ln for ln in txt.split(b"\n") if not ln.startswith(b"source_filename") and not ln.startswith(b"; ModuleID"))
                     lls.setdefault("modules", []).append(hashlib.sha256(body).hexdigest()[:16])
-        sets.append((out, {k: sorted(v) for k, v in lls.items()}))
         shutil.rmtree(root, ignore_errors=True)
-    return sets
+        return (out, {k: sorted(v) for k, v in lls.items()})
+    return pmap(one, [0, 1], workers=2)
 
 
 PY_SYMS = ["Sqrt", "Pow", "Sin", "Cos", "Tan", "Exp", "Log", "Floor", "Ceil", "Fabs", "Atan", "Sinh"]
@@ -162,8 +161,7 @@ def py_repro_check(base):
     files_ = {"go.mod": "module vt\n\ngo 1.24\n\nrequire github.com/goplus/lib v0.3.1\n", "go.sum": open("/verif/checks/c19/go.sum").read(),
               "main.go": 'package main\n\nimport "vt/p"\n\nfunc main() { println(int(p.Sum() * 1000)) }\n',
               "p/p.go": 'package p\n\nimport (\n\t"github.com/goplus/lib/py"\n\tpymath "github.com/goplus/lib/py/math"\n)\n\nfunc Sum() float64 {\n\tx := py.Float(0.5)\n\ts := 0.0\n' + body + '\treturn s\n}\n'}
-    sets = []
-    for k in range(3):
+    def one(k):
         root = os.path.join(base, "pyrepro%d" % k)
         shutil.rmtree(root, ignore_errors=True)
         src = os.path.join(root, "src"); gc = os.path.join(root, "gocache"); xdg = os.path.join(root, "xdg")
@@ -173,7 +171,7 @@ def py_repro_check(base):
         e = llgo_env("A"); e["XDG_CACHE_HOME"] = xdg; e["GOCACHE"] = gc; e["LLGO_LIB_PYTHON"] = "/usr/lib/x86_64-linux-gnu/python3.11"
         r = subprocess.run([llgo_path(), "build", "-O0", "-gen-llfiles", "-o", os.path.join(root, "prog"), "."], cwd=src, env=e, capture_output=True, text=True, timeout=1800)
         if r.returncode != 0:
-            return None, r.stderr[-1500:]
+            return "ERR " + r.stderr[-1500:]
         mods = []
         for dp, dn, fn in os.walk(gc):
             for f in fn:
@@ -182,8 +180,12 @@ def py_repro_check(base):
                     if b"__llgo_py.math" in txt:
                         body_ = b"\n".join(ln for ln in txt.split(b"\n") if not ln.startswith(b"source_filename") and not ln.startswith(b"; ModuleID"))
                         mods.append(hashlib.sha256(body_).hexdigest()[:16])
-        sets.append(sorted(mods))
         shutil.rmtree(root, ignore_errors=True)
+        return sorted(mods)
+    sets = pmap(one, [0, 1, 2], workers=3)
+    for x in sets:
+        if isinstance(x, str):
+            return None, x
     return sets, ""
 
 
@@ -218,7 +220,17 @@ if __name__ == "__main__":
         rep.violation("harness:template", "the template world does not build/run: %r %s" % (out, err))
         rep.coverage.update(states=1, transitions=1, traces_validated_against_impl=0, samples=["-"], exhaustive=False)
         rep.finish()
+    import threading
+    repro_evs = ([], ["edit-b", "toggle-tag"]) if not thorough else ([], ["edit-b", "toggle-tag"], ["edit-cfile", "edit-embed"])
+    side = {}
+
+    def side_work():   # clean builds for the reproducibility part run beside the histories
+        side["repro"] = [repro_check(base, e) for e in repro_evs]
+        side["py"] = py_repro_check(base)
+    th = threading.Thread(target=side_work)
+    th.start()
     results = pmap(run_history, [(h, base, i, tw.xdg) for i, h in enumerate(hists)], workers=8)
+    th.join()
     states = set()
     transitions = hits = miss = 0
     for r in results:
@@ -230,14 +242,13 @@ if __name__ == "__main__":
             rep.violation("history:" + key, what, {"history": r["history"]})
     # reproducibility of emitted IR
     nrep = 0
-    for evs_ in ([], ["edit-b", "toggle-tag"]) if not thorough else ([], ["edit-b", "toggle-tag"], ["edit-cfile", "edit-embed"]):
-        s = repro_check(base, evs_)
+    for evs_, s in zip(repro_evs, side["repro"]):
         nrep += 1
         if s[0][1] != s[1][1] or not s[0][1]:
             a0, a1 = s[0][1].get("modules", []), s[1][1].get("modules", [])
             rep.violation("repro:" + "/".join(evs_), "two clean builds of the same sources emitted different IR: %d modules vs %d, %d module texts not shared" % (
                 len(a0), len(a1), len(set(a0) ^ set(a1))), {"history": evs_})
-    sets, err = py_repro_check(base)
+    sets, err = side["py"]
     if sets is None:
         rep.violation("harness:pyrepro", "the Python-using package does not build:\n" + err)
     else:
